@@ -120,10 +120,15 @@ func GenMsg(r *sim.Rand, token string, o ShapeOpts) MsgSpec {
 	if len(o.Sources) == 0 {
 		o.Sources = DefaultShape.Sources
 	}
+	// domains are written the way the caller spelled them, upper-case letters included
+	dom := "dest.example"
+	if r.Chance(1, 6) {
+		dom = "Dest.EXAMPLE"
+	}
 	m := MsgSpec{Token: token, From: "sender-" + token + "@origin.example", Subject: "subject " + token,
-		To: []string{"to-" + token + "@dest.example"}}
+		To: []string{"to-" + token + "@" + dom}}
 	if r.Chance(1, 3) {
-		m.Cc = []string{"cc-" + token + "@dest.example"}
+		m.Cc = []string{"cc-" + token + "@" + dom}
 	}
 	if r.Chance(1, 3) {
 		m.Bcc = []string{"bcc-" + token + "@hidden.example"}
